@@ -319,7 +319,7 @@ def bounded_histories(chk):
 
 
 def main(chk):
-    chk.prove(["c_helpers", "c_shadow"])
+    chk.prove(["c_helpers", "c_shadow", "c_option"])
     attach_replays()
     chk.replay_refuted()
     chk.lemmas(lemmas())
@@ -330,7 +330,8 @@ def main(chk):
         "object views: Inv(Port) (no operator => no ports) is a proved postcondition of Port.line.fset (C08, clause `Inv(Port) of c_shadow`, operands written as numbers or as keywords of the assumed table); Inv(Address) (regex classification in the address line setter) rests on the C06/C01 bounded monitors",
         "assumed contracts: Protocol.name.fget (ip <=> 0, decided by C09), AddressBase.ipnets (ghost value; see C13/C05)",
         "ipaddress.IPv4Network.subnet_of == prefix containment (L13.bits lemmas are stated over that definition)",
-        "flag tokens have the legacy match-any meaning; log tokens do not affect matching",
+        "flag tokens have the legacy match-any meaning; log tokens do not affect matching; which words of an option text are flags is proved for Option.line.fset "
+        "(every word that is not `log` / `log-input` is a flag, wherever it stands), over the whitespace-token model of the text",
     ]
     return chk.finish(
         "other",
